@@ -2,13 +2,17 @@ package regular
 
 //vsym:pkg github.com/theparanoids/ysshra/gensign/regular
 //vsym:entry H02_generate
+//vsym:entry H02_newhandler
+//vsym:model (*github.com/theparanoids/ysshra/config.GensignConfig).ExtractHandlerConf m02ExtractHandlerConf
+//vsym:model golang.org/x/crypto/ssh/agent.NewClient m02NewClient
 //vsym:model github.com/theparanoids/ysshra/sshutils/key.GenerateKeyPair m02GenerateKeyPair
 //vsym:model golang.org/x/crypto/ssh.MarshalAuthorizedKey m02MarshalAuthorizedKey
 //vsym:model encoding/json.Marshal m02JSONMarshal
 //vsym:replay same-harness
-//vsym:expect-cover C02.request-built C02.no-identifier C02.keygen-failed
+//vsym:expect-cover C02.newhandler-wired C02.request-built C02.no-identifier C02.keygen-failed
 //vsym:bound H02_generate: every ReqParam string (log name, transaction id, client IP, client-declared user and host) symbolic with one common length 0..2 bytes (any byte value); requested CA key algorithm any int; configured validity any 64-bit value; key-identifier map of 0..2 entries with symbolic algorithm keys; Generate called twice
-//vsym:assume key generation yields a fresh key pair object per call (model of key.GenerateKeyPair); encoding/json.Marshal records the value it is given (JSON escaping is the standard library's); the agent is a model behind the agent interface; NewHandler's mapstructure decoding is not executed (the Handler is constructed with certValiditySec = conf.CertValiditySec as NewHandler does)
+//vsym:bound H02_newhandler: NewHandler with the configuration decoder modelled as filling the handler configuration with an arbitrary validity and one key identifier, then one Generate
+//vsym:assume key generation yields a fresh key pair object per call (model of key.GenerateKeyPair); encoding/json.Marshal records the value it is given (JSON escaping is the standard library's); the agent is a model behind the agent interface; mapstructure's traversal is modelled (ExtractHandlerConf fills the target with arbitrary values); NewHandler's own wiring is executed
 
 import (
 	"crypto"
@@ -18,6 +22,7 @@ import (
 	"crypto/x509"
 	"errors"
 
+	"github.com/theparanoids/ysshra/config"
 	"github.com/theparanoids/ysshra/csr"
 	"github.com/theparanoids/ysshra/gensign"
 	"github.com/theparanoids/ysshra/keyid"
@@ -107,7 +112,11 @@ func H02_generate() {
 		ClientIP: vNondetString("ip", l),
 		ReqUser:  vNondetString("requser", l),
 		ReqHost:  vNondetString("reqhost", l),
-		Attrs:    &message.Attributes{CAPubKeyAlgo: x509.PublicKeyAlgorithm(vNondetInt("ca-algo"))},
+		// everything the client can claim about itself is arbitrary; none of it may reach the KeyID
+		Attrs: &message.Attributes{CAPubKeyAlgo: x509.PublicKeyAlgorithm(vNondetInt("ca-algo")),
+			IfVer: vNondetInt("ifver"), Username: vNondetString("attr-user", 1), Hostname: vNondetString("attr-host", 1),
+			HardKey: vNondetBool("claim-hardkey"), Touch2SSH: vNondetBool("claim-touch2ssh"),
+			TouchlessSudo: &message.TouchlessSudo{IsFirefighter: vNondetBool("claim-firefighter"), Hosts: vNondetString("claim-hosts", 1), Time: vNondetI64("claim-time")}},
 	}
 	validity := vNondetU64("validity")
 	ids := map[x509.PublicKeyAlgorithm]string{}
@@ -213,4 +222,61 @@ func H02_generate() {
 	if len(pubs) == 2 {
 		vAssert(pubs[0] != pubs[1], "C02.key-pair-not-reused-across-requests")
 	}
+}
+
+// ---- NewHandler wiring ---------------------------------------------------------
+
+var m02CfgValidity uint64
+var m02CfgAgent *m02Agent
+var m02ExtractCalls int
+
+func m02ExtractHandlerConf(g *config.GensignConfig, name string, target interface{}) error {
+	m02ExtractCalls++
+	c, ok := target.(*conf)
+	if !ok || name != HandlerName {
+		return errors.New("model: unexpected handler configuration target")
+	}
+	c.CertValiditySec = m02CfgValidity
+	c.KeyIdentifiers = map[x509.PublicKeyAlgorithm]string{x509.RSA: "slot-rsa"}
+	c.PubKeyDir = "/keys"
+	return nil
+}
+
+func m02NewClient(rw interface{ Read([]byte) (int, error); Write([]byte) (int, error) }) ag.ExtendedAgent {
+	return m02ExtAgent{m02CfgAgent}
+}
+
+type m02ExtAgent struct{ *m02Agent }
+
+func (m02ExtAgent) SignWithFlags(ssh.PublicKey, []byte, ag.SignatureFlags) (*ssh.Signature, error) {
+	return nil, errors.New("no")
+}
+func (m02ExtAgent) Extension(string, []byte) ([]byte, error) { return nil, errors.New("no") }
+
+func H02_newhandler() {
+	m02CfgValidity = vNondetU64("configured-validity")
+	vAssume(vAnd(m02CfgValidity >= 1, m02CfgValidity <= 315360000))
+	m02CfgAgent = &m02Agent{}
+	gh, err := NewHandler(&config.GensignConfig{}, nil)
+	vAssert(err == nil && gh != nil, "C02.handler-constructed")
+	if err != nil || gh == nil {
+		return
+	}
+	h, ok := gh.(*Handler)
+	vAssert(ok && m02ExtractCalls == 1, "C02.handler-configuration-decoded")
+	if !ok {
+		return
+	}
+	vAssert(h.certValiditySec == m02CfgValidity && h.conf != nil && h.conf.CertValiditySec == m02CfgValidity, "C02.handler-uses-the-configured-validity")
+	param := &csr.ReqParam{LogName: "user", TransID: "t", ClientIP: "1.2.3.4", ReqUser: "u", ReqHost: "h", Attrs: &message.Attributes{CAPubKeyAlgo: x509.RSA}}
+	keys, gerr := h.Generate(param)
+	vAssert(gerr == nil && len(keys) == 1, "C02.generate-succeeds")
+	if gerr != nil || len(keys) != 1 {
+		return
+	}
+	r := keys[0].CSRs()[0]
+	vAssert(r.Validity == m02CfgValidity, "C02.configured-validity")
+	vAssert(r.KeyMeta != nil && r.KeyMeta.Identifier == "slot-rsa", "C02.key-slot-of-requested-algorithm")
+	vAssert(len(m02CfgAgent.added) == 1 && uint64(m02CfgAgent.added[0].LifetimeSecs) >= m02CfgValidity, "C02.agent-lifetime-follows-the-configuration")
+	vReach("C02.newhandler-wired")
 }
